@@ -2,11 +2,11 @@
 # tools_fulltests.sh <repo dir> <out dir>: run every top-level test function of pkg/fs in its own process
 # (the suite leaks descriptors, so one process for everything hits the 20000 fd limit of this sandbox).
 export GOFLAGS=-mod=mod GOPROXY=off GOSUMDB=off GOTOOLCHAIN=local
-REPO=$1; OUT=$2; mkdir -p "$OUT"
+REPO=$1; OUT=$2; mkdir -p "$OUT"; export TMPDIR="$OUT/tmp"; mkdir -p "$TMPDIR"
 cd "$REPO" || exit 2
 go test -mod=mod -vet=off -c -o "$OUT/fs.test" ./pkg/fs || exit 2
 for t in $(grep -h "^func Test" pkg/fs/*_test.go | sed 's/func \(Test[A-Za-z_0-9]*\).*/\1/' | grep -v TestMain); do
   (cd pkg/fs && timeout 1500 "$OUT/fs.test" -test.run "^${t}\$" -test.v -test.count=1 -test.timeout 25m 2>&1 | grep -a -E "^\s*--- (PASS|FAIL|SKIP)" | sed 's/ (.*//' | sort > "$OUT/$t.res")
   echo "$t pass=$(grep -a -c PASS "$OUT/$t.res") fail=$(grep -a -c FAIL "$OUT/$t.res")"
-  rm -rf /tmp/stfs-test-* 2>/dev/null
+  rm -rf "$TMPDIR"/stfs-test-* 2>/dev/null
 done
